@@ -1,9 +1,12 @@
 import AlgoVerif.Model.C10
+import AlgoVerif.Model.C08
 /-!
 Line-protocol component for C10 and C12 (shared; `Driver/C12.lean` delegates here).
 
 A case is a grammar description (`terms …`, `nonterms …`, `start S`, `prod H : body`, see
-`Model/GrammarCore.lean`; each answers `ok`) followed by query ops:
+`Model/GrammarCore.lean`; each answers `ok`) followed by query ops.  Description lines may also come
+between queries — the harness then changes the SAME `*CFG` object in place (`Productions.Add`, …) — and
+`unprod H : body` removes a production in place; later queries see the changed grammar.
 
 ```
 nullable            -> ok {A,B}
@@ -11,6 +14,8 @@ first X Y …         -> ok {a,b} eps=false            (panic: a symbol reached 
 follow A            -> ok {a} end=true               (panic: A is not declared)
 ll1                 -> ok true | ok false [ff A: α | β; ef A: eps=α other=β]
 table               -> ok conflicts=[A/a …] cells=[A/a:{p|q} A/$:sync …]
+                       (conflicts in the order `Conflicts()` reports them: rows as `OrderNonTerminals`
+                        lists them, columns sorted with `$` last; cells sorted, productions of a cell sorted)
 parse a b c         -> ok accept p₁; p₂; … | ok reject terminal|noentry|trailing | ok table-error
 ast a b c           -> ok <tree> yield=[a b c]   | as parse
 unchanged           -> ok true                       (the caller's grammar still equals its clone)
@@ -42,17 +47,23 @@ def showLL1Err : LL1Err String String → String
     if a < b then s!"ff {A}: {a} | {b}" else s!"ff {A}: {b} | {a}"
   | .epsFollow A e o => s!"ef {A}: eps={showBody e} other={showBody o}"
 
+/-- the rows in the order `OrderNonTerminals` returns them (`Model/C08.lean: orderNT`) -/
+def tableRows (g : SGrammar) : List String :=
+  match AlgoVerif.C08.orderNT g with
+  | .ok nts => nts
+  | _ => g.nonterms
+
 def showTable (g : SGrammar) (an : Analysis String String) : String :=
   let fi := firstStr an.first
-  let nts := sortDedup g.nonterms
+  let rows := tableRows g
   let cols := (sortDedup g.terms).map some ++ [none]
-  let cf := conflicts g fi an.follow
-  let confl := nts.flatMap fun A => cols.filterMap fun a =>
-    if cf.contains (A, a) then some (A ++ "/" ++ colName a) else none
+  let t := buildTable fi an.follow g.prods rows
+  let confl := (tconflicts t rows cols).map fun c => c.1 ++ "/" ++ colName c.2
+  let nts := sortDedup g.nonterms
   let cells := nts.flatMap fun A => cols.filterMap fun a =>
-    let ps := cell g fi an.follow A a
+    let ps := tcell t A a
     if !ps.isEmpty then some (A ++ "/" ++ colName a ++ ":{" ++ "|".intercalate (sortDedup (ps.map prodKey)) ++ "}")
-    else if syncCell g fi an.follow A a then some (A ++ "/" ++ colName a ++ ":sync")
+    else if tsync t A a then some (A ++ "/" ++ colName a ++ ":sync")
     else none
   s!"ok conflicts=[{" ".intercalate confl}] cells=[{" ".intercalate cells}]"
 
@@ -121,18 +132,44 @@ def runQuery (g : SGrammar) (valid : Bool) (an : Outcome (Analysis String String
           | .tableError => Outcome.ok "ok table-error"
           | .done (.reject why) => Outcome.ok ("ok reject " ++ showReject why)
           | .done (.accept evs) =>
-            (buildAST evs (Tree.node g.start none [])).map fun t =>
+            (buildASTStack g.start evs).map fun t =>
               s!"ok {showTree t} yield=[{" ".intercalate t.yield}]")
     | _, _ => "bad-op"
   | [] => "bad-op"
 
-def runCase (_hdr : List String) (ops : List String) : List String :=
-  -- the grammar is everything the description lines of the case say, wherever they stand
-  let g0 := ops.foldl (fun g l => (parseGrammarLine g l).1) SGrammar.empty
-  let g := normalise g0
-  let valid := validB g
-  let an := if valid then analyse g IterOrder.canon IterOrder.canon else Outcome.panic
-  ops.map fun l =>
-    if (parseGrammarLine SGrammar.empty l).2 then "ok" else runQuery g valid an l
+/-- `unprod H : body` -/
+def parseUnprod (g : SGrammar) (line : String) : Option SProd :=
+  match words line with
+  | "unprod" :: h :: ":" :: body =>
+    some { head := h, body := body.map fun w => if g.nonterms.contains w then Sym.nonterm w else Sym.term w }
+  | _ => none
+
+def runCase (_hdr : List String) (ops : List String) : List String := Id.run do
+  let mut raw : SGrammar := SGrammar.empty
+  -- the normalised grammar with its validity and analyses, recomputed after a description line
+  let mut cur : Option (SGrammar × Bool × Outcome (Analysis String String)) := none
+  let mut out : Array String := #[]
+  for l in ops do
+    let (raw', isDesc) := parseGrammarLine raw l
+    if isDesc then
+      raw := raw'
+      cur := none
+      out := out.push "ok"
+    else
+      match parseUnprod raw l with
+      | some p =>
+        raw := { raw with prods := raw.prods.filter (· ≠ p) }
+        cur := none
+        out := out.push "ok"
+      | none =>
+        let st := match cur with
+          | some st => st
+          | none =>
+            let g := normalise raw
+            let valid := validB g
+            (g, valid, if valid then analyse g IterOrder.canon IterOrder.canon else Outcome.panic)
+        cur := some st
+        out := out.push (runQuery st.1 st.2.1 st.2.2 l)
+  return out.toList
 
 end AlgoVerif.C10.Driver
